@@ -69,7 +69,10 @@ def run(ctx):
             L = fact_literals(T, fn, facts)
             if cls == 'Ok':
                 n += 1
-                eq = any(re.match(r'^eq\(.*,desired_size\)$', l) for l in L)
+                from terms import canon_lit
+                Lc = [canon_lit(l) for l in L]
+                # any spelling of the equality: eq(a,b) true, or ne(a,b) false (`while a != b`), operands in either order
+                eq = any(re.match(r'^eq\(.*\)$', l) and 'desired_size' in l for l in Lc) or any(re.match(r'^!ne\(.*\)$', l) and 'desired_size' in l for l in Lc)
                 ctx.ob('C14-D2', PTS, 'return Ok(()) [%d]' % n, 'curr_size == desired_size established', eq, detail=str(sorted(L))[:300])
         ctx.floor('Ok returns of pad_to_size', n, 1, rule='C14-D2')
         errs = [1 for b in fn.B for dst, rv in b['s'] if dst['l'] == 0 and rv['k'] == 'agg' and rv.get('variant') == 'Err']
@@ -91,7 +94,7 @@ def run(ctx):
         ctx.analysed(name, 1)
         for bi, t in calls:
             term = T.op_term(fn, t['args'][1])
-            ctx.ob('C14-D3', name, 'pad_to_size(n)', 'n = length of the original (placeholder) assertion data', 'target_assertion' in term and 'len' in term.lower(), detail=term[:120], site=loc(t['span']))
+            ctx.ob('C14-D3', name, 'pad_to_size(n)', 'n = length of the original (placeholder) assertion data', re.search(r'len\(Assertion::data\(ClaimAssertion::assertion\(\w+\)\)\)', term) is not None, detail=term[:120], site=loc(t['span']))
         g = CallGuard(r'DataHash::pad_to_size$', 'ok', name='pad_to_size(original_len) = Ok')
         oblig.returns_only_if(ctx, 'C14-D3', fn, lambda c: c.startswith('call:') or c == 'Ok' or c == '?', [g], name='the re-serialised assertion')
     # D4 every sign flavour pads
